@@ -45,6 +45,9 @@ Definition err_of_Z (z : Z) : option err :=
 Definition err_is (e : err) (z : Z) : bool :=
   match err_of_Z z with Some e' => err_eqb e e' | None => false end.
 
+(* what a scripted matcher observed: Read result / MatchingBytes result *)
+Inductive kobs := KRd (d : data) (e : Z) | KPk (panicked : bool) (d : data).
+
 Inductive cop :=
 | KRead (n : Z) (d : data) (e : Z)
 | KPrefetch (e : Z) (newcap : Z)
@@ -55,6 +58,7 @@ Inductive cop :=
 | KWrapBufio (sz n1 : Z) (d : data) (e : Z)
 | KThrottle (burst : Z)
 | KTee
+| KMatchSet (ms : mset) (os : list kobs)   (* real MatcherSet.Match; ms = the matchers that ran *)
 | KDrain (bsz : Z) (d : data)
 | KSinks (ds : list data).
 
@@ -137,6 +141,16 @@ Definition step (stream : list byte) (r : rd) (orc : oracle) (op : cop) : option
       end
   | KThrottle burst => match r with L4 c i => Some (L4 c (Thr (Z.to_nat burst) i), orc) | _ => None end
   | KTee => match r with L4 c _ => Some (wrap_impl c (TeeW r []), orc) | _ => None end
+  | KMatchSet ms os =>
+      let '(seen, r', o') := run_set ms r orc in
+      if all2 (fun (o : obs) (k : kobs) =>
+                 match o, k with
+                 | ORead d e, KRd d' e' => bytes_eqb d (data_bytes stream d') && err_is e e'
+                 | OPeek None, KPk p _ => p
+                 | OPeek (Some b), KPk p d' => negb p && bytes_eqb b (data_bytes stream d')
+                 | _, _ => false
+                 end) seen os
+      then Some (r', o') else None
   | KDrain bsz d =>
       let '(ds, r', o') := drain (List.length (stream_of r) + List.length orc + 1002) r (Z.to_nat bsz) orc 1000 in
       if bytes_eqb ds (data_bytes stream d) then Some (r', o') else None
